@@ -260,6 +260,45 @@ mut('C08', 'initial_status_write_removed', A, """	if err := a.historyStore.Write
 mut('C03', 'scheduler_not_told_about_dry', A, """		Dry:           a.dry,
 """, "")
 
+# ---- C08 reported status
+CL = 'internal/client/client.go'
+MS = 'internal/persistence/model/status.go'
+MN = 'internal/persistence/model/node.go'
+mut('C08', 'stale_running_record_not_corrected', CL, """	status.CorrectRunningStatus()
+	return status, nil""", """	return status, nil""")
+mut('C08', 'history_preferred_over_live_status', CL, """	currStatus, _ := e.currentStatus(workflow)
+	if currStatus != nil {
+		return currStatus, nil
+	}
+	status, err := e.dataStore.HistoryStore().ReadStatusToday(workflow.Location)""", """	status, err := e.dataStore.HistoryStore().ReadStatusToday(workflow.Location)
+	if err == nil && status.Status != scheduler.StatusRunning {
+		return status, nil
+	}
+	currStatus, _ := e.currentStatus(workflow)
+	if currStatus != nil {
+		return currStatus, nil
+	}""")
+mut('C08', 'socket_timeout_taken_for_not_running', CL, """		if errors.Is(err, sock.ErrTimeout) {
+			return nil, err
+		}
+		return model.NewStatusDefault(workflow), nil
+	}
+	return model.StatusFromJSON(ret)""", """		return model.NewStatusDefault(workflow), nil
+	}
+	return model.StatusFromJSON(ret)""")
+mut('C08', 'correction_relabels_as_finished', MS, """		st.Status = scheduler.StatusError
+		st.StatusText = st.Status.String()""", """		st.Status = scheduler.StatusSuccess
+		st.StatusText = st.Status.String()""")
+mut('C08', 'node_record_drops_retry_count', MN, """		RetryCount: node.State.RetryCount,
+""", "")
+mut('C08', 'node_record_takes_status_text_only', MN, """		Status:     node.State.Status,
+		StatusText: node.State.Status.String(),""", """		StatusText: node.State.Status.String(),""")
+mut('C08', 'agent_reports_started_run_as_not_started', A, """	if schedulerStatus == scheduler.StatusNone && a.graph.IsStarted() {
+		// Match the status to the execution graph.
+		schedulerStatus = scheduler.StatusRunning
+	}
+""", "")
+
 # ---- C09 daemon
 D = 'internal/scheduler/scheduler.go'
 J = 'internal/scheduler/job.go'
